@@ -1,4 +1,4 @@
-"""The fixed list of syntactic rewrites (R1..R22 of DESIGN.md §3.2) applied to freshly extracted
+"""The fixed list of syntactic rewrites (R1..R23 of DESIGN.md §3.2) applied to freshly extracted
 function text before it is handed to Verus.  Each rewrite works on token lists and returns the
 number of sites it touched so the evidence can log it."""
 import re
@@ -263,6 +263,39 @@ def r14_digit_from_bytes(toks, log):
             log['R14'] = log.get('R14', 0) + 1
             i += 3
             continue
+        out.append(toks[i])
+        i += 1
+    return out
+
+
+def r23_digits_prefix_collect(toks, log):
+    """R23 (entry option `r23`): the iterator-adapter expression of `to_radix_le`'s radix-256 branch
+         `( & self . digits [ 0 ..= E ] ) . into_iter ( ) . map ( | d | * d as u8 ) . collect ( )`
+       ->  `bn_digits_prefix_u8 ( & self . digits , E )`
+    Verus accepts the expression but vstd's `Map`/`collect` facts do not fire for a closure created in a
+    generic impl, so the call goes to a trusted `external_body` wrapper declared by the overlay unit whose
+    body is this same expression (with `self . digits` spelt `digits`).  Only this exact token shape is
+    rewritten; anything else is left alone (and the overlay transplant then fails on a lost anchor)."""
+    head = ['(', '&', 'self', '.', 'digits', '[', '0', '..=']
+    tail = [']', ')', '.', 'into_iter', '(', ')', '.', 'map', '(', '|', 'd', '|', '*', 'd', 'as', 'u8', ')', '.', 'collect', '(', ')']
+    out = []
+    i = 0
+    n = len(toks)
+    while i < n:
+        if toks[i:i + len(head)] == head:
+            j = i + len(head)
+            d = 0
+            while j < n and not (toks[j] == ']' and d == 0):
+                if toks[j] in '([{':
+                    d += 1
+                elif toks[j] in ')]}':
+                    d -= 1
+                j += 1
+            if j < n and toks[j:j + len(tail)] == tail:
+                out += ['bn_digits_prefix_u8', '(', '&', 'self', '.', 'digits', ','] + toks[i + len(head):j] + [')']
+                log['R23'] = log.get('R23', 0) + 1
+                i = j + len(tail)
+                continue
         out.append(toks[i])
         i += 1
     return out
